@@ -37,6 +37,12 @@ Chess/RulesFacts.vos Chess/RulesFacts.vok Chess/RulesFacts.required_vos: Chess/R
 Chess/San.vo Chess/San.glob Chess/San.v.beautified Chess/San.required_vo: Chess/San.v Chess/Rules.vo Chess/Fen.vo
 Chess/San.vio: Chess/San.v Chess/Rules.vio Chess/Fen.vio
 Chess/San.vos Chess/San.vok Chess/San.required_vos: Chess/San.v Chess/Rules.vos Chess/Fen.vos
+Chess/SanProofs.vo Chess/SanProofs.glob Chess/SanProofs.v.beautified Chess/SanProofs.required_vo: Chess/SanProofs.v Chess/Rules.vo Chess/RulesFacts.vo Chess/Fen.vo Chess/TextProofs.vo Chess/FenPlacement.vo Chess/San.vo Chess/SanSweep.vo Base/Geom.vo Base/FileRank.vo Base/NIter.vo
+Chess/SanProofs.vio: Chess/SanProofs.v Chess/Rules.vio Chess/RulesFacts.vio Chess/Fen.vio Chess/TextProofs.vio Chess/FenPlacement.vio Chess/San.vio Chess/SanSweep.vio Base/Geom.vio Base/FileRank.vio Base/NIter.vio
+Chess/SanProofs.vos Chess/SanProofs.vok Chess/SanProofs.required_vos: Chess/SanProofs.v Chess/Rules.vos Chess/RulesFacts.vos Chess/Fen.vos Chess/TextProofs.vos Chess/FenPlacement.vos Chess/San.vos Chess/SanSweep.vos Base/Geom.vos Base/FileRank.vos Base/NIter.vos
+Chess/SanSweep.vo Chess/SanSweep.glob Chess/SanSweep.v.beautified Chess/SanSweep.required_vo: Chess/SanSweep.v Chess/Rules.vo Chess/RulesFacts.vo Chess/Fen.vo Chess/TextProofs.vo Chess/San.vo Base/Geom.vo Base/FileRank.vo Base/NIter.vo
+Chess/SanSweep.vio: Chess/SanSweep.v Chess/Rules.vio Chess/RulesFacts.vio Chess/Fen.vio Chess/TextProofs.vio Chess/San.vio Base/Geom.vio Base/FileRank.vio Base/NIter.vio
+Chess/SanSweep.vos Chess/SanSweep.vok Chess/SanSweep.required_vos: Chess/SanSweep.v Chess/Rules.vos Chess/RulesFacts.vos Chess/Fen.vos Chess/TextProofs.vos Chess/San.vos Base/Geom.vos Base/FileRank.vos Base/NIter.vos
 Chess/TextProofs.vo Chess/TextProofs.glob Chess/TextProofs.v.beautified Chess/TextProofs.required_vo: Chess/TextProofs.v Chess/Rules.vo Chess/Fen.vo Chess/RulesFacts.vo Base/FileRank.vo
 Chess/TextProofs.vio: Chess/TextProofs.v Chess/Rules.vio Chess/Fen.vio Chess/RulesFacts.vio Base/FileRank.vio
 Chess/TextProofs.vos Chess/TextProofs.vok Chess/TextProofs.required_vos: Chess/TextProofs.v Chess/Rules.vos Chess/Fen.vos Chess/RulesFacts.vos Base/FileRank.vos
@@ -175,6 +181,9 @@ Engine/TimeMgrProofs.vos Engine/TimeMgrProofs.vok Engine/TimeMgrProofs.required_
 Engine/UciSession.vo Engine/UciSession.glob Engine/UciSession.v.beautified Engine/UciSession.required_vo: Engine/UciSession.v Chess/Rules.vo Chess/Fen.vo
 Engine/UciSession.vio: Engine/UciSession.v Chess/Rules.vio Chess/Fen.vio
 Engine/UciSession.vos Engine/UciSession.vok Engine/UciSession.required_vos: Engine/UciSession.v Chess/Rules.vos Chess/Fen.vos
+Engine/UciSessionText.vo Engine/UciSessionText.glob Engine/UciSessionText.v.beautified Engine/UciSessionText.required_vo: Engine/UciSessionText.v Chess/Rules.vo Chess/Fen.vo Chess/TextProofs.vo Chess/FenProofs.vo Engine/UciSession.vo
+Engine/UciSessionText.vio: Engine/UciSessionText.v Chess/Rules.vio Chess/Fen.vio Chess/TextProofs.vio Chess/FenProofs.vio Engine/UciSession.vio
+Engine/UciSessionText.vos Engine/UciSessionText.vok Engine/UciSessionText.required_vos: Engine/UciSessionText.v Chess/Rules.vos Chess/Fen.vos Chess/TextProofs.vos Chess/FenProofs.vos Engine/UciSession.vos
 Gen/BitbaseDump.vo Gen/BitbaseDump.glob Gen/BitbaseDump.v.beautified Gen/BitbaseDump.required_vo: Gen/BitbaseDump.v 
 Gen/BitbaseDump.vio: Gen/BitbaseDump.v 
 Gen/BitbaseDump.vos Gen/BitbaseDump.vok Gen/BitbaseDump.required_vos: Gen/BitbaseDump.v 
@@ -265,9 +274,9 @@ Props/C12Tables.vos Props/C12Tables.vok Props/C12Tables.required_vos: Props/C12T
 Props/Properties_C01.vo Props/Properties_C01.glob Props/Properties_C01.v.beautified Props/Properties_C01.required_vo: Props/Properties_C01.v Chess/Rules.vo Chess/RulesFacts.vo
 Props/Properties_C01.vio: Props/Properties_C01.v Chess/Rules.vio Chess/RulesFacts.vio
 Props/Properties_C01.vos Props/Properties_C01.vok Props/Properties_C01.required_vos: Props/Properties_C01.v Chess/Rules.vos Chess/RulesFacts.vos
-Props/Properties_C02.vo Props/Properties_C02.glob Props/Properties_C02.v.beautified Props/Properties_C02.required_vo: Props/Properties_C02.v Chess/Rules.vo Engine/PositionRep.vo Engine/RepAbs.vo Engine/RepRefine.vo Engine/RepRefineLegal.vo Engine/RepRoundTripNormal.vo Base/NIter.vo Chess/History.vo Chess/HistoryKeys.vo Chess/ValidStep.vo Chess/GameInv.vo Engine/KeyScratchInit.vo Engine/HistoryRefine.vo Engine/GameRefine.vo
-Props/Properties_C02.vio: Props/Properties_C02.v Chess/Rules.vio Engine/PositionRep.vio Engine/RepAbs.vio Engine/RepRefine.vio Engine/RepRefineLegal.vio Engine/RepRoundTripNormal.vio Base/NIter.vio Chess/History.vio Chess/HistoryKeys.vio Chess/ValidStep.vio Chess/GameInv.vio Engine/KeyScratchInit.vio Engine/HistoryRefine.vio Engine/GameRefine.vio
-Props/Properties_C02.vos Props/Properties_C02.vok Props/Properties_C02.required_vos: Props/Properties_C02.v Chess/Rules.vos Engine/PositionRep.vos Engine/RepAbs.vos Engine/RepRefine.vos Engine/RepRefineLegal.vos Engine/RepRoundTripNormal.vos Base/NIter.vos Chess/History.vos Chess/HistoryKeys.vos Chess/ValidStep.vos Chess/GameInv.vos Engine/KeyScratchInit.vos Engine/HistoryRefine.vos Engine/GameRefine.vos
+Props/Properties_C02.vo Props/Properties_C02.glob Props/Properties_C02.v.beautified Props/Properties_C02.required_vo: Props/Properties_C02.v Chess/Rules.vo Engine/PositionRep.vo Engine/RepAbs.vo Engine/RepRefine.vo Engine/RepRefineLegal.vo Engine/RepRoundTripNormal.vo Base/NIter.vo Chess/History.vo Chess/HistoryKeys.vo Chess/ValidStep.vo Chess/GameInv.vo Engine/KeyScratchInit.vo Engine/HistoryRefine.vo Engine/GameRefine.vo Chess/Fen.vo Engine/UciSession.vo Engine/UciSessionText.vo
+Props/Properties_C02.vio: Props/Properties_C02.v Chess/Rules.vio Engine/PositionRep.vio Engine/RepAbs.vio Engine/RepRefine.vio Engine/RepRefineLegal.vio Engine/RepRoundTripNormal.vio Base/NIter.vio Chess/History.vio Chess/HistoryKeys.vio Chess/ValidStep.vio Chess/GameInv.vio Engine/KeyScratchInit.vio Engine/HistoryRefine.vio Engine/GameRefine.vio Chess/Fen.vio Engine/UciSession.vio Engine/UciSessionText.vio
+Props/Properties_C02.vos Props/Properties_C02.vok Props/Properties_C02.required_vos: Props/Properties_C02.v Chess/Rules.vos Engine/PositionRep.vos Engine/RepAbs.vos Engine/RepRefine.vos Engine/RepRefineLegal.vos Engine/RepRoundTripNormal.vos Base/NIter.vos Chess/History.vos Chess/HistoryKeys.vos Chess/ValidStep.vos Chess/GameInv.vos Engine/KeyScratchInit.vos Engine/HistoryRefine.vos Engine/GameRefine.vos Chess/Fen.vos Engine/UciSession.vos Engine/UciSessionText.vos
 Props/Properties_C03.vo Props/Properties_C03.glob Props/Properties_C03.v.beautified Props/Properties_C03.required_vo: Props/Properties_C03.v Engine/PositionRep.vo Engine/RepAbs.vo Engine/RepProofs.vo Engine/RepRoundTrip.vo Engine/RepRoundTripNormal.vo Engine/Encoding.vo Engine/RepRefine.vo Engine/RepRefineLegal.vo Engine/RepRoundTripLegal.vo Chess/Rules.vo Chess/ValidStep.vo Chess/GameInv.vo Engine/KeyScratchInit.vo Engine/GameRefine.vo
 Props/Properties_C03.vio: Props/Properties_C03.v Engine/PositionRep.vio Engine/RepAbs.vio Engine/RepProofs.vio Engine/RepRoundTrip.vio Engine/RepRoundTripNormal.vio Engine/Encoding.vio Engine/RepRefine.vio Engine/RepRefineLegal.vio Engine/RepRoundTripLegal.vio Chess/Rules.vio Chess/ValidStep.vio Chess/GameInv.vio Engine/KeyScratchInit.vio Engine/GameRefine.vio
 Props/Properties_C03.vos Props/Properties_C03.vok Props/Properties_C03.required_vos: Props/Properties_C03.v Engine/PositionRep.vos Engine/RepAbs.vos Engine/RepProofs.vos Engine/RepRoundTrip.vos Engine/RepRoundTripNormal.vos Engine/Encoding.vos Engine/RepRefine.vos Engine/RepRefineLegal.vos Engine/RepRoundTripLegal.vos Chess/Rules.vos Chess/ValidStep.vos Chess/GameInv.vos Engine/KeyScratchInit.vos Engine/GameRefine.vos
@@ -310,9 +319,9 @@ Props/Properties_C15.vos Props/Properties_C15.vok Props/Properties_C15.required_
 Props/Properties_C16.vo Props/Properties_C16.glob Props/Properties_C16.v.beautified Props/Properties_C16.required_vo: Props/Properties_C16.v Engine/Encoding.vo Engine/EncodingProofs.vo Chess/Rules.vo Chess/Fen.vo Chess/TextProofs.vo Engine/UciSession.vo Chess/FenProofs.vo
 Props/Properties_C16.vio: Props/Properties_C16.v Engine/Encoding.vio Engine/EncodingProofs.vio Chess/Rules.vio Chess/Fen.vio Chess/TextProofs.vio Engine/UciSession.vio Chess/FenProofs.vio
 Props/Properties_C16.vos Props/Properties_C16.vok Props/Properties_C16.required_vos: Props/Properties_C16.v Engine/Encoding.vos Engine/EncodingProofs.vos Chess/Rules.vos Chess/Fen.vos Chess/TextProofs.vos Engine/UciSession.vos Chess/FenProofs.vos
-Props/Properties_C17.vo Props/Properties_C17.glob Props/Properties_C17.v.beautified Props/Properties_C17.required_vo: Props/Properties_C17.v Chess/Rules.vo Chess/San.vo
-Props/Properties_C17.vio: Props/Properties_C17.v Chess/Rules.vio Chess/San.vio
-Props/Properties_C17.vos Props/Properties_C17.vok Props/Properties_C17.required_vos: Props/Properties_C17.v Chess/Rules.vos Chess/San.vos
+Props/Properties_C17.vo Props/Properties_C17.glob Props/Properties_C17.v.beautified Props/Properties_C17.required_vo: Props/Properties_C17.v Chess/Rules.vo Chess/San.vo Chess/SanProofs.vo
+Props/Properties_C17.vio: Props/Properties_C17.v Chess/Rules.vio Chess/San.vio Chess/SanProofs.vio
+Props/Properties_C17.vos Props/Properties_C17.vok Props/Properties_C17.required_vos: Props/Properties_C17.v Chess/Rules.vos Chess/San.vos Chess/SanProofs.vos
 Props/Properties_C18.vo Props/Properties_C18.glob Props/Properties_C18.v.beautified Props/Properties_C18.required_vo: Props/Properties_C18.v Engine/Polyglot.vo Engine/PolyglotInst.vo Chess/Fen.vo Golden/Random64.vo Gen/PolyglotData.vo Engine/Magic.vo Engine/PolyglotProofs.vo Engine/RepAbs.vo Chess/Rules.vo Base/NIter.vo
 Props/Properties_C18.vio: Props/Properties_C18.v Engine/Polyglot.vio Engine/PolyglotInst.vio Chess/Fen.vio Golden/Random64.vio Gen/PolyglotData.vio Engine/Magic.vio Engine/PolyglotProofs.vio Engine/RepAbs.vio Chess/Rules.vio Base/NIter.vio
 Props/Properties_C18.vos Props/Properties_C18.vok Props/Properties_C18.required_vos: Props/Properties_C18.v Engine/Polyglot.vos Engine/PolyglotInst.vos Chess/Fen.vos Golden/Random64.vos Gen/PolyglotData.vos Engine/Magic.vos Engine/PolyglotProofs.vos Engine/RepAbs.vos Chess/Rules.vos Base/NIter.vos
